@@ -646,6 +646,31 @@ theorem merge_fills_slot (slot : Option Update) (op : Op) : (apply slot op).isSo
     rcases slot with _ | ⟨_ | ⟨m', rs⟩ | p', hints⟩ <;> simp [apply, mergeTopology, slotMut]
   | hint a up => simp [apply, mergeHint]
 
+/-- A full fetch subsumes whatever client-routes information was pending: afterwards the slot carries exactly the
+routes of the new metadata (pending partial route updates were fetched before it and are dropped). -/
+theorem full_fetch_replaces_routes (slot : Option Update) (m : Meta) (r : Option Nat) :
+    routesOf (mergeMetadata slot m r) = m.clientRoutes.map (fun rs => rs.map fun e => (e.1, some e.2)) := by
+  rcases slot with _ | ⟨_ | ⟨m', rs⟩ | p, hints⟩ <;> cases r <;> simp [mergeMetadata, slotMut, routesOf]
+
+/-- A partial client-routes update arriving after a full fetch is applied to that fetch's snapshot
+(`ClientRoutes::merge`), or ignored when client routes are not configured; onto an empty slot / a pending partial
+update it is recorded / merged entry-wise (`ClientRoutesUpdate::merge`). -/
+theorem client_routes_merge_cases (slot : Option Update) (upd : List (RouteKey × Option Nat)) :
+    routesOf (mergeClientRoutes slot upd) =
+      match slot with
+      | some { changes := some (.full m _), .. } =>
+        m.clientRoutes.map (fun rs => (routesApply rs upd).map fun e => (e.1, some e.2))
+      | some { changes := some (.part p), .. } =>
+        (match p.clientRoutes with
+         | none => some upd
+         | some existing => some (routesUpdateMerge existing upd))
+      | _ => some upd := by
+  rcases slot with _ | ⟨_ | ⟨m', rs⟩ | p, hints⟩
+  · simp [mergeClientRoutes, slotMut, routesOf]
+  · simp [mergeClientRoutes, slotMut, routesOf]
+  · rcases m' with ⟨pe, _ | routes⟩ <;> simp [mergeClientRoutes, slotMut, routesOf]
+  · rcases p with ⟨_ | cr, pe⟩ <;> simp [mergeClientRoutes, slotMut, routesOf]
+
 -- non-vacuity: full fetch with refresh 0, topology update, a second full fetch with refresh 1 and a hint:
 -- both reply channels are kept, the newest topology (9) wins.
 example :
